@@ -158,6 +158,7 @@ func c05History(src string, mk func() any, mkOther func() any, mkVar func() any,
 	if err != nil {
 		return "", false
 	}
+	printed := q.String()
 	constBefore := c05Constants(code)
 	in, vr := mk(), mkVar()
 	inSnap, vrSnap := snapshot(in), snapshot(vr)
@@ -266,6 +267,20 @@ func c05History(src string, mk func() any, mkOther func() any, mkVar func() any,
 		if !check("after run 7") || !same(o1, o7, "the output sequence", "a run started next to an ended iterator") {
 			return problem, true
 		}
+	}
+	// H5: compiling and running leave the parsed *Query as it was: it prints the same and compiles to a program with the
+	// same outputs (Query.Run compiles on every call)
+	if after := q.String(); after != printed {
+		return fmt.Sprintf("the parsed query changed by being compiled and run: it printed as %q, now as %q", printed, after), true
+	}
+	code2, err := gojq.Compile(q, append([]gojq.CompilerOption{gojq.WithVariables([]string{"$v"})}, opts...)...)
+	if err != nil {
+		return "the same parsed query no longer compiles: " + err.Error(), true
+	}
+	r8 := &c05State{}
+	o8, _ := r8.drain(code2.RunWithContext(probe.NewPollCtx(4000), mk(), mkVar()), "run8(compiled again)", c05MaxOut)
+	if !same(o1, o8, "the output sequence", "a run of the same *Query compiled again") {
+		return problem, true
 	}
 	return "", nontrivial
 }
@@ -552,7 +567,9 @@ var c05NumberPrograms = []string{"add", "add(.[])", "reduce .[] as $x (0; . + $x
 
 var c05CustomPrograms = []string{"each", "[each]", "each, .", "[each], [each]", "members(.)", "members($v)", "$v, (members($v) | tojson), $v", ". , (members(.) | tojson), .", "[.[]? | arg(.)]", "pair(.; $v)", "args(.; 1)", "[.[]? | args(.; .)]",
 	"[limit(1; each)], [each]", "first(each), .", "each as $x | [$x, .]", "[each | each?]", "reduce each as $x (null; . + ($x | tojson))", "same, .", "[same, arg(.), pair(.; .)]", "[members(.[]?)]", "[members(.[1:]?)]", "[members(.[:2]?)]",
-	"[.[]? | args(.; 1; 2)] | ., .", "[each] | members(.)", "first(members(.)), last(members(.)), .", "[limit(2; members($v))], $v", "label $out | each | ., break $out", "[each] == [.[]?], .", "members([.[]?, 1])", "isempty(each), [each]"}
+	"[.[]? | args(.; 1; 2)] | ., .", "[each] | members(.)", "first(members(.)), last(members(.)), .", "[limit(2; members($v))], $v", "label $out | each | ., break $out", "[each] == [.[]?], .", "members([.[]?, 1])", "isempty(each), [each]",
+	"[tuple(1; 2), tuple(3; 4)]", "tuple(1; 2) | [., (3 + 4)]", "tuple(1), tuple(2; 3), tuple(4; 5), [tuple(6; 7), tuple(8; 9)]", "[spread(1; 2; 3) | . * 10]", "reduce spread(1; 2; 3) as $x (0; . + $x)", "[spread(.; $v) | tojson]", "tuple(.; $v) as $t | tuple(1; 2) | [$t, .]",
+	"[.[]? | tuple(.; 1)]", "[spread(1), spread(2; 3)]", ".[0]?, .[1:]?, .[:1]?", "[.[(0, 1)]?]", ".a[.b]?", "[.[]? | .[0]?]", `."a\(1)"?`, ".[.[0]?]?", "[.[(0, 1):(2, 3)]?]"}
 
 func c05CustomOptions() []gojq.CompilerOption {
 	spread := func(v any) gojq.Iter {
@@ -568,6 +585,11 @@ func c05CustomOptions() []gojq.CompilerOption {
 		gojq.WithFunction("arg", 1, 1, func(_ any, xs []any) any { return xs[0] }),
 		gojq.WithFunction("pair", 2, 2, func(_ any, xs []any) any { return []any{xs[0], xs[1]} }),
 		gojq.WithFunction("args", 1, 3, func(_ any, xs []any) any { return xs }),
+		// one name registered by several options (one per arity range): every registration is a function of its own
+		gojq.WithFunction("tuple", 1, 1, func(_ any, xs []any) any { return xs }),
+		gojq.WithFunction("tuple", 2, 3, func(_ any, xs []any) any { return xs }),
+		gojq.WithIterFunction("spread", 1, 1, func(_ any, xs []any) gojq.Iter { return gojq.NewIter(xs...) }),
+		gojq.WithIterFunction("spread", 2, 3, func(_ any, xs []any) gojq.Iter { return gojq.NewIter(xs...) }),
 	}
 }
 
